@@ -5,6 +5,7 @@ import (
 	"errors"
 	"fmt"
 	"runtime"
+	"strings"
 	"sync/atomic"
 	"time"
 
@@ -33,6 +34,7 @@ type c07State struct {
 	failAt      int // fail the n-th write primitive (0 = never)
 	hookFired   bool
 	firedPoint  string
+	sites       []string // store:type:parent=.. of every ProcessPreCommit call of the current attempt
 }
 
 type vetoConstraint struct {
@@ -42,6 +44,7 @@ type vetoConstraint struct {
 
 func (v *vetoConstraint) ProcessPreCommit(st boltz.UntypedEntityChangeState) error {
 	v.s.preCalls++
+	v.s.sites = append(v.s.sites, fmt.Sprintf("%s:%v:parent=%v", v.store, st.GetChangeType(), st.IsParentEvent()))
 	if v.s.vetoAt > 0 && v.s.preCalls == v.s.vetoAt {
 		v.s.vetoFired = true
 		v.s.lastVetoOn = fmt.Sprintf("%s:%v:parent=%v", v.store, st.GetChangeType(), st.IsParentEvent())
@@ -93,7 +96,7 @@ func init() {
 			"a rejected store operation (duplicate / missing fk target / validation / restrict) spliced at every position, pre-commit action error (first / middle / last of three); via Db.Update and (a tenth) Db.Batch. " +
 			"Oracle per injection: Db.Update returns non-nil, the store call during which the failure was raised returns non-nil, full-file dump identical to before, zero listener / post-commit / commit-action / tx-complete callbacks, " +
 			"and the body then commits normally with exactly one commit action and tx-complete callback. migration manager cases: Migrate over 1-4 steps, three rounds per database; one step fails through step.SetError (returned version unchanged or advanced), after a rejected store operation, or through a pre-commit action it registered: Migrate must return the error, dump, recorded version and commit-action count unchanged; without a failing step the target version is recorded, the steps ran once each in order, their writes and commit actions are there. " +
-			"context reuse cases: one MutateContext (ordinary or system) carried through 3-6 transactions via Update / Batch, each registering its own pre-commit and commit action and committing or failing (caller error before / after registering, rejected operation, failing pre-commit action): a commit action runs exactly once iff its transaction committed, every action runs only with its own transaction, a later transaction is not failed by an earlier one's pre-commit action. " +
+			"context reuse cases: one MutateContext (ordinary or system) carried through 3-6 transactions via Update / Batch, each registering its own pre-commit and commit action and committing or failing (caller error before / after registering, rejected operation, failing pre-commit action): a commit action runs exactly once iff its transaction committed, every action runs only with its own transaction, a later transaction is not failed by an earlier one's pre-commit action; in a third of these cases the next transaction starts while the previous one's commit actions are still running (two actions per transaction, the first one held back). " +
 			"non-trivial = distinct (failure kind, op kind at the failing position, hook point or veto site) with at least one earlier successful op",
 		Assumptions: []string{"storage errors are injected at the boltz write primitives (verif hook), not inside bbolt's commit", "quiescence of asynchronous callbacks is awaited by goroutine-count baseline"},
 		Plan: func(tier core.Tier, seed int64) int {
@@ -108,7 +111,7 @@ func init() {
 				"veto_site": {"emps:1:parent=false", "emps:2:parent=false", "emps:3:parent=true", "emps/xt:3:parent=false", "depts:3:parent=false", "emps/ext:3:parent=false", "emps:1:parent=true", "emps:2:parent=true"}}
 		},
 		MinCounters: func(core.Tier) map[string]int64 {
-			return map[string]int64{"injections": 1500, "bodies_committed": 100, "migrations_with_a_failing_step": 20, "migrations_completed": 10, "context_reuse_histories": 20}
+			return map[string]int64{"injections": 1500, "bodies_committed": 100, "migrations_with_a_failing_step": 20, "migrations_completed": 10, "context_reuse_histories": 10, "context_reuse_histories_with_overlapping_commit_actions": 6}
 		},
 	})
 }
@@ -222,6 +225,7 @@ func runC07(c *core.Ctx, idx int) {
 			}
 			// (re)arm per attempt: bbolt's Batch may run the body twice
 			s.hookCalls, s.preCalls = 0, 0
+			s.sites = nil
 			s.failAt, s.vetoAt = 0, 0
 			opErrs = nil
 			failedOp = -1
@@ -259,8 +263,27 @@ func runC07(c *core.Ctx, idx int) {
 				}
 				op := ops[i]
 				firedBefore := s.hookFired || s.vetoFired
+				sitesBefore := len(s.sites)
 				err := e.Apply(ctx, &op)
 				opErrs = append(opErrs, err)
+				if err == nil && strings.Contains(op.Store, "/") && (op.Kind == "create" || op.Kind == "update" || op.Kind == "patch") {
+					// a change made through a child store: the constraints of the child store and (as a parent event)
+					// those of the parent store are consulted, each exactly once
+					own, parent := 0, 0
+					for _, site := range s.sites[sitesBefore:] {
+						if strings.HasPrefix(site, op.Store+":") && strings.HasSuffix(site, "parent=false") {
+							own++
+						}
+						if strings.HasPrefix(site, kmodel.Emps+":") && strings.HasSuffix(site, "parent=true") {
+							parent++
+						}
+					}
+					c.Count("child_store_changes_with_constraint_sites_checked", 1)
+					if own != 1 || parent != 1 {
+						c.Violationf("C07 constraints not consulted once each for a change through a child store ("+op.Kind+" through "+op.Store+")", map[string]any{"cfg": cfg.String(), "body": ops, "op_index": i},
+							"pre-commit constraint calls during the operation: %v (child store's own: %d, parent store's as parent event: %d)", s.sites[sitesBefore:], own, parent)
+					}
+				}
 				if !firedBefore && (s.hookFired || s.vetoFired) && err == nil {
 					failedOp = i // a step of this call failed, yet it reported success
 				}
